@@ -303,7 +303,7 @@ def action_pool(info, T, S, rnd):
     return pool
 
 
-def sequences(pool, n, rnd, reduced):
+def sequences(pool, n, rnd, reduced, size):
     """Sequences of one file: all class sequences up to MAXLEN (variants rotated), then random long ones."""
     classes = ['first', 'last', 'next', 'prev', 'index+', 'index-', 'time', 'step', 'history']
     L = MAXLEN if not reduced else MAXLEN - 1
@@ -318,8 +318,13 @@ def sequences(pool, n, rnd, reduced):
         for a in pool[c]:
             seqs.append([a]); seqs.append([('last',), a])
     for l in range(2, L + 1):
-        for cs in itertools.product(classes, repeat=l):
-            if l < L and l > 2: continue                  # shorter ones are prefixes of the longer ones
+        if n == 1 and l > 2: break                        # one result set: every action leads to index 0
+        if l < L and l > 2: continue                      # shorter ones are prefixes of the longer ones
+        prod = list(itertools.product(classes, repeat=l))
+        cap = max(81, (40000000 if QUICK else 1500000000) // max(size, 1))     # large files: a seeded sample
+        if len(prod) > cap:
+            prod = [prod[i] for i in sorted(rnd.sample(range(len(prod)), cap))]
+        for cs in prod:
             seqs.append([pick(c) for c in cs])
     # the out-of-range index in the middle of things
     for a in pool['index!']:
@@ -327,7 +332,7 @@ def sequences(pool, n, rnd, reduced):
             seqs.append([b, a, ('next',)]); seqs.append([a, b])
     allacts = [a for c in sorted(pool) for a in pool[c]]
     weights = [1.0 / len(pool[c]) for c in sorted(pool) for a in pool[c]]
-    for k in range((8 if QUICK else 120) // (2 if reduced else 1)):
+    for k in range((8 if QUICK else 120) // (2 if reduced else 1) // (4 if n == 1 else 1)):
         seqs.append(rnd.choices(allacts, weights=weights, k=30))
     return seqs
 
@@ -371,7 +376,7 @@ def run_job(job, conn, progfile):
                 fail('truncated-count', '', 'copy cut before result set %d shows %d result sets' % (want_n + 1, n), {'file': label})
         rnd = random.Random('%d %s' % (seed, label))
         pool = action_pool(info, T, S, rnd)
-        seqs = sequences(pool, n, rnd, reduced)[chunk::nchunks]
+        seqs = sequences(pool, n, rnd, reduced, os.path.getsize(path))[chunk::nchunks]
         nav = Nav(path, label, snaps, info, progress)
         seen = set()
         nshrunk = 0
@@ -479,7 +484,7 @@ def main():
                 ncut = 0
                 pre.append({'key': 'harness-error %s' % rel, 'what': 'own scan of the file failed: %s' % e, 'input': {'file': rel}})
             n = ncut + 1
-            k = max(2 if n > 1 else 1, size // 120000) if QUICK else max(4 if n > 1 else 1, size // 30000)
+            k = (max(2, size // 120000) if QUICK else max(4, size // 30000)) if n > 1 else max(1, size // 400000)
             jobs += [(rel, path, rel, c, k, n == 1) for c in range(k)]      # a single result set: outside the quantifier, shorter sequences
             ks = list(range(1, n)) if not QUICK else sorted(set([1, 2, n - 1]) & set(range(1, n)))
             if not QUICK and len(ks) > 8:
@@ -489,7 +494,8 @@ def main():
                 job_n[label] = kk
                 k2 = max(1, (size * kk // n) // (200000 if QUICK else 40000))
                 jobs += [(rel, p, label, c, k2, True) for c in range(k2)]
-        jobs.sort(key=lambda j: (-os.path.getsize(j[1]), j[2], j[3]))
+        # shipped files with several result sets first; round robin over the files so that each gets its share
+        jobs.sort(key=lambda j: (j[5], j[3], -os.path.getsize(j[1]), j[2]))
         res = run_jobs(jobs, tmp)
     finally:
         shutil.rmtree(tmp, ignore_errors=True)
